@@ -47,6 +47,17 @@ pub fn record_c13(_args: &Args, mut out: Out) -> usize {
             id,
             text.map(|t| codes(&t)).unwrap_or("[-2]".to_string())
         ));
+        // the same text asked for with a width, an alignment or via Debug-free helpers: padding (spaces) aside, it is the card's text
+        for (si, spec) in ["{:2}", "{:4}", "{:>5}", "{:<3}", "{:^6}"].iter().enumerate() {
+            let t = guarded(move || match si {
+                0 => format!("{:2}", c),
+                1 => format!("{:4}", c),
+                2 => format!("{:>5}", c),
+                3 => format!("{:<3}", c),
+                _ => format!("{:^6}", c),
+            });
+            out.line(&format!("{{\"op\":\"cpad\",\"id\":{},\"spec\":{},\"s\":{}}}", id, jstr(spec), t.map(|t| codes(&t)).unwrap_or("[-2]".to_string())));
+        }
         out.line(&format!(
             "{{\"op\":\"cparts\",\"id\":{},\"rank\":{},\"suit\":{}}}",
             id,
